@@ -227,6 +227,8 @@ def r3_entry_points(ctx):
     def covered(key, depth=0):
         if key in roots:
             return True
+        if key.startswith(IND + "::") or key.startswith("<" + IND + " as "):
+            return True        # Individual's own methods: each is checked against the invariant by R2
         g = F.fn_opt(key)
         if g is None or depth > 4:
             return False
